@@ -332,6 +332,14 @@ def run(ctx):
                    'the result of sending to a channel owned by a client connection is handled locally (stop the replay / ignore), not returned from the journal thread', b.loc(tried[0]) if tried else b.loc(bi))
     ctx.floor('R10.12', n12, 2, 'sends to client channels in streaming_process')
 
+    # ---- R10.13 a flush that did not happen is not acknowledged
+    ctx.rule('R10.13', 'flush_journal can tell its callers that the journal thread is gone: its output is a Result (or the server stops when the journal thread ends); with output `()` a closed reply channel is indistinguishable from a completed flush and every request is still acknowledged after a journal I/O error')
+    fjc = [prog.bodies[p_] for p_ in prog.with_closures(STREAMER + 'flush_journal') if prog.bodies[p_].kind == 'coroutine']
+    ctx.require(fjc, 'R10.13: flush_journal coroutine')
+    out_ty = fjc[0].locals[0][0]
+    ctx.ob('R10.13', 'flush_journal|reports a failed flush', out_ty.strip() != '()' and ('Result' in out_ty or 'bool' in out_ty),
+           f'the future returned by flush_journal resolves to a value that distinguishes "flushed" from "journal thread gone" (observed output type `{out_ty}`)', fjc[0].loc())
+
 
 def _src_local(b, st):
     rv = st['rv']
